@@ -671,8 +671,48 @@ def build_padded_lis(lrs, tif, pr_max, pad, padval, attr_extra=0, trailer=(False
     return bytes(out), recno, first_span
 
 
+def gen_lis_pad_break(rng):
+    """Plain (no TIF) null-padded LIS files on which several pad options of the discovery scan TIE:
+    style 'late'  — padding to a multiple of 2 or 4; the header and the first k physical records (k around the scan limit
+                    of 100: 99, 100, 101, or a few) have lengths that need no PAD byte (so every option reads them), a
+                    later record has a length that needs PAD bytes only the file's own option consumes;
+    style 'short' — a short file: header | odd record + 1 PAD | a record whose length is a multiple of 256 plus a little
+                    (so that the mis-aligned header read with pad 0 is a plausible short record) | small record; every
+                    option (but one) counts the same number of records and the first ones cannot build the index.
+    Both are valid LIS files (null padding, LIS-79 2.3.1.1)."""
+    fill = rng.choice([b' ', b'\x00'])
+    style = rng.choice(['late', 'late', 'short'])
+    if style == 'late':
+        mod = rng.choice([2, 4])
+        has_rec = True                      # 2-byte trailer: the 58-byte file header gives a 64-byte physical record
+        k = rng.choice([99, 100, 101, 98, 102, 3, 20, 150])
+        def rec(n):                         # logical record with n payload bytes after the 2-byte header
+            return bytes([rng.choice([232, 234, 47, 42]), 0]) + rbytes(rng, n)
+        aligned = [2, 6, 10] if mod == 4 else [2, 4, 6, 8]           # PR length 4 + (2 + n) + 2 multiple of mod
+        lrs = [lis_file_head(rng, fill)] + [rec(rng.choice(aligned)) for _ in range(k)]
+        bad = rng.choice([1, 3, 4, 5] if mod == 4 else [1, 3, 5])    # PR length not a multiple of mod
+        if mod == 4 and bad == 4:
+            bad = 0 + 4                                              # length 12 + ... keep explicit: 4+2+4+2 = 12 -> aligned; use 2 pad case below
+            bad = 0
+        lrs.append(rec(bad))
+        lrs += [rec(rng.choice(aligned + [1, 3])) for _ in range(rng.choice([1, 2, 5, 30]))]
+        by, nprs, first_span = build_padded_lis(lrs, '', 65535, ('mod', mod), lambda: 0, 0, (has_rec, None, False))
+        rec_ = {'kind': 'LIS', 'padbreak': 'late', 'mod': mod, 'aligned_prs': k + 1, 'physical_records': nprs, 'first_pr': first_span, 'size': len(by)}
+    else:
+        n2 = rng.choice([1, 3, 5, 7, 9, 21])
+        hi, lo = rng.randint(1, 9), rng.choice([0, 1, 2, 3, 7, 191, rng.randrange(256)])
+        n3 = max(hi * 256 + lo - 6, 1)
+        fb = rng.choice([32, 0, 65, rng.randrange(256)])
+        lrs = [lis_file_head(rng, fill), bytes([232, 0]) + bytes([fb]) * n2, bytes([232, 0]) + bytes([fb]) * n3, bytes([232, 0, 1])]
+        by, nprs, first_span = build_padded_lis(lrs, '', 65535, ('mod', 2), lambda: 0)
+        rec_ = {'kind': 'LIS', 'padbreak': 'short', 'n2': n2, 'n3': n3, 'physical_records': nprs, 'first_pr': first_span, 'size': len(by)}
+    return by, 'LIS', rec_
+
+
 def gen_lis_padded(rng, lr_pool=()):
     """A valid LIS file (header record first) whose physical records are followed by PAD bytes."""
+    if rng.random() < 0.25:
+        return gen_lis_pad_break(rng)
     fill = rng.choice([b' ', b'\x00'])
     lrs = [lis_reel_tape_head(rng, 132, fill), lis_reel_tape_head(rng, 130, fill), lis_file_head(rng, fill)][rng.randrange(3):]
     body = rng.randrange(4)
